@@ -2,8 +2,16 @@
 
 use std::fmt::Debug;
 use std::io::ErrorKind;
+#[cfg(not(mainline_verif))]
 use std::net::{SocketAddr, SocketAddrV4, UdpSocket};
+#[cfg(not(mainline_verif))]
 use std::time::{Duration, Instant};
+#[cfg(mainline_verif)]
+use {
+    crate::verif::{Instant, UdpSocket},
+    std::net::{SocketAddr, SocketAddrV4},
+    std::time::Duration,
+};
 use tracing::{debug, trace, warn};
 
 use crate::common::{ErrorSpecific, Message, MessageType, RequestSpecific, ResponseSpecific};
@@ -317,6 +325,22 @@ impl KrpcSocket {
         self.socket.send_to(&message.to_bytes()?, address)?;
         trace!(context = "socket_message_sending", message = ?message);
         Ok(())
+    }
+}
+
+#[cfg(mainline_verif)]
+impl KrpcSocket {
+    /// (entries in the in-flight vector, entries that have not expired)
+    pub(crate) fn verif_inflight(&self) -> (usize, usize) {
+        let timeout = self.inflight_requests.request_timeout();
+        (
+            self.inflight_requests.requests.len(),
+            self.inflight_requests
+                .requests
+                .iter()
+                .filter(|request| request.sent_at.elapsed() < timeout)
+                .count(),
+        )
     }
 }
 
